@@ -359,6 +359,31 @@ func ResultAlgebra(p *core.Prog, r *core.Report) {
 			} else {
 				r.Bad(rule, fn+":nil-ignored", p.Pos(st.Pos()), "a nil message can be appended")
 			}
+			// (b') the duplicate search extracted into a helper: guarded by !h(<same list>, e) where h answers true
+			//      exactly when the text of its message parameter equals the text of an element of its list parameter
+			viaHelper := false
+			for _, cd := range core.CondsAt(st.Block()) {
+				hc, ok := cd.Value.(*ssa.Call)
+				if !ok || cd.Sense {
+					continue
+				}
+				h := core.StaticCallee(hc)
+				if h == nil || !p.InSubject(h) {
+					continue
+				}
+				li, ei, ok := textMembershipHelper(h)
+				if !ok || li >= len(hc.Call.Args) || ei >= len(hc.Call.Args) {
+					continue
+				}
+				if fieldLoadOf(hc.Call.Args[li], recv, fld) && hc.Call.Args[ei] == elem {
+					viaHelper = true
+				}
+			}
+			if viaHelper {
+				r.OK(rule, fn+":dedupe-compare", p.Pos(st.Pos()), "e.Error() compared with the Error() of every element of r."+fld+" (through a membership helper)")
+				r.OK(rule, fn+":dedupe-per-message", p.Pos(st.Pos()), "the guard is the helper's answer for this very message: recomputed for every message")
+				continue
+			}
 			// (b) under a condition that depends on a comparison of e.Error() with the Error() of elements of the same list
 			var cmp *ssa.BinOp
 			core.EachInstr(f, func(i ssa.Instruction) {
@@ -789,4 +814,81 @@ func returnsFreshSlice(g *ssa.Function, open map[*ssa.Function]bool) bool {
 		}
 	}
 	return ok && n > 0
+}
+
+// textMembershipHelper: h(list []error, e error) bool (in any parameter order) that returns true exactly on
+// e.Error() == list[i].Error() for some i and false after the loop.
+func textMembershipHelper(h *ssa.Function) (listParam, elemParam int, ok bool) {
+	if h.Signature.Results().Len() != 1 || h.Signature.Results().At(0).Type().String() != "bool" || len(h.Blocks) == 0 {
+		return 0, 0, false
+	}
+	var cmp *ssa.BinOp
+	li, ei := -1, -1
+	core.EachInstr(h, func(i ssa.Instruction) {
+		bo, is := i.(*ssa.BinOp)
+		if !is || bo.Op != token.EQL {
+			return
+		}
+		errOf := func(v ssa.Value) ssa.Value {
+			c, ok := v.(*ssa.Call)
+			if !ok || !c.Call.IsInvoke() || c.Call.Method.Name() != "Error" {
+				return nil
+			}
+			return c.Call.Value
+		}
+		a, b := errOf(bo.X), errOf(bo.Y)
+		if a == nil || b == nil {
+			return
+		}
+		for _, pair := range [][2]ssa.Value{{a, b}, {b, a}} {
+			prm, isP := pair[0].(*ssa.Parameter)
+			ld, isL := pair[1].(*ssa.UnOp)
+			if !isP || !isL {
+				continue
+			}
+			ia, isIA := ld.X.(*ssa.IndexAddr)
+			if !isIA {
+				continue
+			}
+			lp, isLP := ia.X.(*ssa.Parameter)
+			if !isLP {
+				continue
+			}
+			for k, q := range h.Params {
+				if q == prm {
+					ei = k
+				}
+				if q == lp {
+					li = k
+				}
+			}
+			cmp = bo
+		}
+	})
+	if cmp == nil || li < 0 || ei < 0 {
+		return 0, 0, false
+	}
+	// returns: true only under the comparison, false otherwise
+	for _, b := range h.Blocks {
+		ret, is := b.Instrs[len(b.Instrs)-1].(*ssa.Return)
+		if !is {
+			continue
+		}
+		k, isC := ret.Results[0].(*ssa.Const)
+		if !isC || k.Value == nil {
+			return 0, 0, false
+		}
+		if k.Value.ExactString() == "true" {
+			under := false
+			for _, cd := range core.CondsAt(b) {
+				if cd.Value == ssa.Value(cmp) && cd.Sense {
+					under = true
+				}
+			}
+			if !under {
+				return 0, 0, false
+			}
+		}
+	}
+	return li, ei, true
 }
